@@ -60,7 +60,17 @@ def check_balance(prog, chk, rule, only=None):
                 exp = 0
             if depth != exp:
                 bad.setdefault((exit_desc(node), cls, depth, exp), (st, node))
-        for (desc, cls, depth, exp), (st, node) in bad.items():
+        for kind, line, st in it.anomalies:
+            if kind == "begin-inside-transaction" and (kind, line) not in bad:
+                bad[(kind, line)] = None
+                rule.violation(fn.file, fn.name, line, "anomaly:%s" % kind,
+                               "plain BEGIN at L%s is executed while a transaction is already open (depth %d): SQLite refuses "
+                               "it, so the operation always fails here" % (line, len(st.ts[0])),
+                               path=["L%s" % x for x in st.trail_lines()])
+        for k4, sn in list(bad.items()):
+            if sn is None:
+                continue
+            (desc, cls, depth, exp), (st, node) = k4, sn
             rule.violation(fn.file, fn.name, node.get("l") if node else fn.endline,
                            "depth-at-exit:%s:%s:%d!=%d" % (desc, cls, depth, exp),
                            "exit `%s` (return class %s) is reached with transaction depth %d, expected %d "
